@@ -77,6 +77,19 @@ def _noise_rebind_bypass(prog, fn, x_rebind_stmt, s_rebind_stmts, fit_call, snam
             names = {x.id for x in ast.walk(n.expr) if isinstance(x, ast.Name)} - {"np", "numpy"}
             if names == {sname}:
                 benign.add(n.id)
+    # the noise vector may be filtered *before* X and Y in the same episode: its (None / scalar guarded) filter dominates the
+    # X re-binding and no fit lies between the two
+    for s_ in s_rebind_stmts:
+        g_ = s_
+        for p_ in prog.ancestors(s_):
+            if isinstance(p_, ast.If) and cfg.node_of(p_.test) is not None and cfg.node_of(p_.test).id in benign:
+                g_ = p_
+            if p_ is fn.node:
+                break
+        hd = cfg.head_of(g_) if isinstance(g_, ast.If) else cfg.node_of(g_)
+        sn = cfg.node_of(s_)
+        if hd is not None and sn is not None and hd.id != start and cfg.dominates(hd.id, start) and goal not in cfg.reachable(sn.id, avoiding={start}):
+            return None
     prev = {start: None}
     queue = [start]
     while queue:
